@@ -284,19 +284,7 @@ WRAPPERS = ("std::option::Option::map", "std::option::Option::and_then", "std::o
 
 
 def _key_of(f, t):
-    c = mir.trace_const(f, t["args"][0]) if t.get("args") else None
-    if c is None:
-        return None
-    pb = c.get("promoted_body")
-    if pb:
-        # `&KEY` is a promoted constant of the accessing function: the key is the static it refers to
-        for blk in pb.get("blocks", []):
-            for st in blk.get("stmts", []):
-                rv = st.get("rv") or {}
-                op = rv.get("op") if rv.get("k") == "use" else None
-                if op and op.get("k") == "const" and (op["c"].get("uneval") or op["c"].get("text")):
-                    return str(op["c"].get("uneval") or op["c"].get("text"))
-    return str(c.get("def") or c.get("uneval") or c.get("text") or c.get("val") or "") or None
+    return mir.tls_key(f, t)
 
 
 def extent_scoped_keys(ctx, fb):
